@@ -58,8 +58,12 @@ def run(ctx):
            not any(f in flags for f in ('VERBOSE', 're.X', 'IGNORECASE', 're.I')), loc=where, detail=flags)
     # iter_splitlines scans with that pattern; indent delegates
     isl = prog.func('strutils.iter_splitlines')
+    # in iter_splitlines itself or in a private module-level helper it calls (the scan may be extracted)
+    scan_scope = [isl] + [prog.module('strutils').functions[n.func.id] for n in ast.walk(isl.node)
+                          if isinstance(n, ast.Call) and isinstance(n.func, ast.Name) and n.func.id.startswith('_')
+                          and n.func.id in prog.module('strutils').functions]
     uses = any(isinstance(n, ast.Call) and txt(n.func) in ('_line_ending_re.finditer', '_line_ending_re.split',
-                                                            '_line_ending_re.search') for n in ast.walk(isl.node))
+                                                            '_line_ending_re.search') for f_ in scan_scope for n in ast.walk(f_.node))
     ctx.ob('T12.use', isl.fq, 'iter_splitlines scans with _line_ending_re', uses, loc=isl.loc)
     # one table of line breaks only: iter_splitlines itself holds no second, hard-coded list of break characters
     breaks = set(''.join(SPLITLINES))
